@@ -5,6 +5,7 @@ package main
 import (
 	"fmt"
 	"go/types"
+	"regexp"
 	"sort"
 	"strings"
 
@@ -147,9 +148,26 @@ func (x *fnExec) staticCall(fr *frame, st *State, ci ssa.CallInstruction, res ss
 		panic("ghost function " + key + " called from code")
 	}
 	ghost := isSpecFile(x.P, fn) && c == nil
-	if ghost || (c != nil && c.Inline) || (c == nil && x.canAutoInline(fr, fn)) {
+	bare := c != nil && !c.Inline && len(c.Requires) == 0 && len(c.Ensures) == 0 && !c.HasMod // safety-only contract
+	if ghost || (c != nil && c.Inline) || ((c == nil || bare) && x.canAutoInline(fr, fn)) {
 		if fr.depth >= maxInlineDepth {
 			panic("inline depth exceeded at " + key)
+		}
+		if c != nil && !bare && len(c.BindErr) == 0 && !(fr.inline && !fr.safety) {
+			// an inlined callee still has its preconditions checked at the call site
+			vars := x.paramEnv(fn, args)
+			site := "call " + key + " at " + x.P.Fset.Position(ci.Pos()).String()
+			for _, cl := range c.Requires {
+				if cl.Info == nil {
+					continue
+				}
+				env := &specEnv{x: x, vars: copyVars(vars), cur: st, old: st, info: cl.Info}
+				goal, hyp, sk := env.clauseGoal(cl)
+				o := x.obligation(st, funcKey(x.top)+":call "+key+":pre#"+cl.Label, "pre", site, nil, goal, hyp, cl.Src)
+				o.skolems = sk
+				env2 := &specEnv{x: x, vars: copyVars(vars), cur: st, old: st, info: cl.Info}
+				env2.assumeClause(cl, st)
+			}
 		}
 		nf := x.newFrame(fn, args, st, fr.depth+1)
 		nf.inline = true
@@ -281,6 +299,7 @@ func (x *fnExec) contractCall(fr *frame, st *State, ci ssa.CallInstruction, res 
 	}
 	rv := fresh("ret_" + fn.Name())
 	x.recordRefs(rv)
+	x.markFreshResults(c, fn, rv)
 	for _, cl := range c.Ensures {
 		if cl.Info == nil {
 			continue
@@ -401,6 +420,10 @@ func (x *fnExec) resolveModTarget(c *Contract, fn *ssa.Function, vars map[types.
 		stt, ok := pt.Elem().Underlying().(*types.Struct)
 		if !ok {
 			return modTarget{}, fmt.Errorf("not a struct")
+		}
+		if parts[i] == "*" && i == len(parts)-1 {
+			// every field of the object
+			return modTarget{p: Val{K: VPtr, Prefix: cur.Prefix, Ref: cur.Ref, Idx: cur.Idx}, ty: pt.Elem()}, nil
 		}
 		var fld *types.Var
 		for j := 0; j < stt.NumFields(); j++ {
@@ -841,6 +864,43 @@ func (p *Program) explainTop(fn *ssa.Function, seen map[string]bool, ind string)
 				}
 			default:
 				fmt.Printf("%s%s: dynamic call %s -> top\n", ind, fn.Name(), cc.Value.String())
+			}
+		}
+	}
+}
+
+var isNewRe = regexp.MustCompile(`isNew\((\w+)\)`)
+
+// markFreshResults registers results a callee's contract declares isNew(...) as allocations made by the call,
+// so that they are distinct from every object that existed before it.
+func (x *fnExec) markFreshResults(c *Contract, fn *ssa.Function, rv Val) {
+	res := fn.Signature.Results()
+	for _, cl := range c.Ensures {
+		if len(cl.Bound) > 0 || strings.Contains(cl.GoText, "implies(") {
+			continue
+		}
+		for _, m := range isNewRe.FindAllStringSubmatch(cl.GoText, -1) {
+			for i := 0; i < res.Len(); i++ {
+				name := res.At(i).Name()
+				if name == "" || name == "_" {
+					name = "result"
+					if res.Len() > 1 {
+						name = fmt.Sprintf("result%d", i)
+					}
+				}
+				if name != m[1] {
+					continue
+				}
+				v := rv
+				if res.Len() > 1 {
+					v = rv.Fs[i]
+				}
+				switch v.K {
+				case VSlice:
+					x.allocs = append(x.allocs, allocRec{v.base(), x.seq})
+				case VPtr:
+					x.allocs = append(x.allocs, allocRec{v.Ref, x.seq})
+				}
 			}
 		}
 	}
